@@ -15,9 +15,6 @@ func init() {
 	register(&Rule{ID: "R4.nul-skip", Props: []string{"C04"}, Floor: 2,
 		Text: "in loadAOF's parse loop the call of redcon.ReadNextCommand is dominated by the false edge of a test of data[0] against 0 whose true edge advances data by one byte: zero padding between commands is skipped instead of being parsed",
 		Run:  ruleNulSkip})
-	register(&Rule{ID: "R4.carry", Props: []string{"C04"}, Floor: 1,
-		Text: "after the parse loop the unparsed remainder of the chunk is copied into the carry buffer that is prepended to the next chunk, whenever it is non-empty",
-		Run:  ruleCarry})
 }
 
 type loadAOFView struct {
@@ -69,6 +66,33 @@ func mentionsField(info *types.Info, e ast.Node, f *types.Var) bool {
 
 // errReturned: the call is the init of `if err := call; err != nil { return err }` (or assigned and tested next).
 func errReturned(c *Ctx, info *types.Info, call ast.Node) bool {
+	// return call(...)   (possibly as one of several results)
+	for p, k := c.Parent(call), 0; p != nil && k < 3; p, k = c.Parent(p), k+1 {
+		if _, ok := p.(*ast.ReturnStmt); ok {
+			return true
+		}
+		if _, ok := p.(ast.Stmt); ok {
+			break
+		}
+	}
+	// x, err := call   followed by   return …, err
+	if as, ok := c.Parent(call).(*ast.AssignStmt); ok && len(as.Rhs) == 1 && len(as.Lhs) >= 1 {
+		if blk, ok := c.Parent(as).(*ast.BlockStmt); ok {
+			if eid, ok := as.Lhs[len(as.Lhs)-1].(*ast.Ident); ok {
+				for i, st := range blk.List {
+					if st == ast.Stmt(as) && i+1 < len(blk.List) {
+						if r, ok := blk.List[i+1].(*ast.ReturnStmt); ok {
+							for _, res := range r.Results {
+								if rid, ok := ast.Unparen(res).(*ast.Ident); ok && info.ObjectOf(rid) == info.ObjectOf(eid) {
+									return true
+								}
+							}
+						}
+					}
+				}
+			}
+		}
+	}
 	// x, err := call   followed by   if err != nil { return …, err }
 	if as, ok := c.Parent(call).(*ast.AssignStmt); ok && len(as.Rhs) == 1 && len(as.Lhs) >= 1 {
 		if blk, ok := c.Parent(as).(*ast.BlockStmt); ok {
@@ -130,8 +154,36 @@ func ruleSizeAccounting(c *Ctx) {
 	}
 	info, fg := v.info, v.fg
 	reads := v.aofCall("Read")
-	truncs := v.aofCall("Truncate")
-	seeks := v.aofCall("Seek")
+	// Truncate and Seek may live in a helper that only the loader calls (truncateAOFTail, say)
+	type fileCall struct {
+		call *ast.CallExpr
+		in   *FuncInfo
+	}
+	var truncs, seeks []fileCall
+	helpers := c.calledOnlyFrom(v.fn.Obj.Name())
+	for f := range helpers {
+		fi := c.FuncOf(f)
+		if fi == nil {
+			continue
+		}
+		ast.Inspect(fi.Decl.Body, func(n ast.Node) bool {
+			call, ok := n.(*ast.CallExpr)
+			if !ok {
+				return true
+			}
+			se, ok := ast.Unparen(call.Fun).(*ast.SelectorExpr)
+			if !ok || selField(fi.Info(), se.X) != v.aof {
+				return true
+			}
+			switch se.Sel.Name {
+			case "Truncate":
+				truncs = append(truncs, fileCall{call, fi})
+			case "Seek":
+				seeks = append(seeks, fileCall{call, fi})
+			}
+			return true
+		})
+	}
 	if len(reads) == 0 || len(truncs) == 0 || len(seeks) == 0 {
 		c.bad("tail-repair", v.fn.Decl.Pos(), "expected a Read, a Truncate and a Seek on s.aof in loadAOF; found %d/%d/%d (a torn tail is not cut off, or the write offset is not moved to the cut)", len(reads), len(truncs), len(seeks))
 		return
@@ -357,6 +409,28 @@ func ruleSizeAccounting(c *Ctx) {
 		}
 		return st
 	}
+	// helpers that only the loader calls and that do not reach the dispatcher take part in the offset
+	// bookkeeping: they are analysed in place
+	cmdUnit := func() *Unit {
+		if mu.err != "" {
+			return nil
+		}
+		return mu.lk.ofDecl[mu.ct.Command.Obj]
+	}()
+	cl.Inline = func(call *ast.CallExpr) *FuncInfo {
+		f := callee(info, call)
+		if f == nil || !helpers[f] || f == v.fn.Obj || mu.err != "" {
+			return nil
+		}
+		if u := mu.lk.ofDecl[f]; u != nil {
+			for _, r := range mu.lk.reachSync(u) {
+				if r == cmdUnit {
+					return nil
+				}
+			}
+		}
+		return c.FuncOf(f)
+	}
 	cl.FieldWrittenBy = func(call *ast.CallExpr, f *types.Var) bool {
 		callee := callee(info, call)
 		if callee == nil || mu.err != "" {
@@ -366,11 +440,26 @@ func ruleSizeAccounting(c *Ctx) {
 			return w
 		}
 		w := false
-		units := []*Unit{mu.lk.ofDecl[callee]}
-		if callee == mu.ct.Command.Obj {
-			// the replayer feeds the dispatcher only commands of the logged (write) class
-			// (R3.vocabulary, R3.replay-path): their handlers are what can run here
-			units = nil
+		// The replayer feeds the dispatcher only commands of the logged (write) class (R3.vocabulary,
+		// R3.replay-path): where the callee reaches the dispatcher, the handlers of that class are what
+		// can run; everything else the callee does is taken as it is.
+		cmdU := mu.lk.ofDecl[mu.ct.Command.Obj]
+		locs := map[string]bool{"Server." + f.Name(): true}
+		var units []*Unit
+		reachesDispatch := callee == mu.ct.Command.Obj
+		if u := mu.lk.ofDecl[callee]; u != nil && !reachesDispatch {
+			for _, as := range mu.lk.effectsStop(u, locs, func(x *Unit) bool { return x == cmdU }) {
+				if as.Acc.Write {
+					w = true
+				}
+			}
+			for _, r := range mu.lk.reachSync(u) {
+				if r == cmdU {
+					reachesDispatch = true
+				}
+			}
+		}
+		if reachesDispatch {
 			for _, h := range writeHandlers(c) {
 				units = append(units, mu.lk.ofDecl[h])
 			}
@@ -379,7 +468,7 @@ func ruleSizeAccounting(c *Ctx) {
 			if u == nil {
 				continue
 			}
-			for _, as := range mu.lk.effects(u, map[string]bool{"Server." + f.Name(): true}) {
+			for _, as := range mu.lk.effects(u, locs) {
 				if as.Acc.Write {
 					w = true
 				}
@@ -418,7 +507,7 @@ func ruleSizeAccounting(c *Ctx) {
 		}
 		for _, ob := range []struct {
 			key, what, bad string
-			f         *affForm
+			f              *affForm
 		}{
 			{"aofsz-at-return", "aofsz", "the server's idea of the log size (used for follower positions, checksums and the next shrink) is wrong after start-up", a.VarForm(a.fidx[v.aofsz])},
 			{"file-size-at-return", "the size of the log file", "the log is cut at an offset that is not the end of the last complete command (applied commands are cut off, or part of the torn tail stays in the file), or a torn tail is not cut at all", a.VarForm(a.Ghost("F"))},
@@ -435,11 +524,31 @@ func ruleSizeAccounting(c *Ctx) {
 		c.und("aofsz-at-return", v.fn.Decl.Pos(), "no normal return found in loadAOF")
 	}
 	// ordering and error discipline of the repair
+	// the error of a call made in a helper must be returned by the helper and by every call of the helper in the loader
+	propagated := func(fc fileCall) bool {
+		if !errReturned(c, fc.in.Info(), fc.call) {
+			return false
+		}
+		if fc.in.Obj == v.fn.Obj {
+			return true
+		}
+		okAll, n := true, 0
+		ast.Inspect(v.fn.Decl.Body, func(x ast.Node) bool {
+			if call, ok := x.(*ast.CallExpr); ok && callee(info, call) == fc.in.Obj {
+				n++
+				if !errReturned(c, info, call) {
+					okAll = false
+				}
+			}
+			return true
+		})
+		return okAll && n > 0
+	}
 	for _, t := range truncs {
-		c.check(errReturned(c, info, t.Node), "truncate-error-returned", t.Node.Pos(), "the error of Truncate is returned", "the error of Truncate is dropped")
+		c.check(propagated(t), "truncate-error-returned", t.call.Pos(), "the error of Truncate is returned", "the error of Truncate is dropped")
 	}
 	for _, sk := range seeks {
-		c.check(errReturned(c, info, sk.Node), "seek-error-returned", sk.Node.Pos(), "the error of Seek is returned", "the error of Seek is dropped")
+		c.check(propagated(sk), "seek-error-returned", sk.call.Pos(), "the error of Seek is returned", "the error of Seek is dropped")
 	}
 }
 
@@ -536,56 +645,4 @@ func ruleNulSkip(c *Ctx) {
 		}
 	}
 	c.check(adv, "nul-advances-data", call.Pos(), "the true edge of the NUL test advances data by one byte", "a NUL byte is detected but not skipped")
-}
-
-func ruleCarry(c *Ctx) {
-	v := viewLoadAOF(c)
-	if v == nil || !v.parse.Valid() {
-		c.und("anchors", 0, "loadAOF or its ReadNextCommand call not found")
-		return
-	}
-	info, fg := v.info, v.fg
-	call := v.parse.Node.(*ast.CallExpr)
-	did, _ := ast.Unparen(call.Args[0]).(*ast.Ident)
-	if did == nil {
-		c.und("data", call.Pos(), "first argument of ReadNextCommand is not a variable")
-		return
-	}
-	dataObj := info.ObjectOf(did)
-	ok := false
-	for _, l := range fg.Find(func(n ast.Node) bool {
-		as, isAs := n.(*ast.AssignStmt)
-		if !isAs || len(as.Rhs) != 1 {
-			return false
-		}
-		ap, isCall := ast.Unparen(as.Rhs[0]).(*ast.CallExpr)
-		if !isCall || !ap.Ellipsis.IsValid() || len(ap.Args) != 2 {
-			return false
-		}
-		id, isId := ast.Unparen(ap.Args[1]).(*ast.Ident)
-		return isId && info.ObjectOf(id) == dataObj
-	}) {
-		// after the parse loop, guarded by len(data) > 0
-		guard := false
-		for _, f := range fg.DominatingFacts(l) {
-			be, isBin := ast.Unparen(f.E).(*ast.BinaryExpr)
-			zero := false
-			if isBin {
-				if tv, has := info.Types[be.Y]; has && tv.Value != nil && tv.Value.String() == "0" {
-					zero = true
-				}
-			}
-			if isBin && !f.Neg && zero && (be.Op == token.GTR || be.Op == token.NEQ) {
-				if lc, isCall := ast.Unparen(be.X).(*ast.CallExpr); isCall && len(lc.Args) == 1 {
-					if id, isId := ast.Unparen(lc.Args[0]).(*ast.Ident); isId && info.ObjectOf(id) == dataObj {
-						guard = true
-					}
-				}
-			}
-		}
-		if guard && fg.Dominates(v.parse, l) {
-			ok = true
-		}
-	}
-	c.check(ok, "remainder-carried", call.Pos(), "the non-empty remainder is copied to the carry buffer after the parse loop", "the incomplete remainder of a chunk is not carried to the next read: a command split across two reads is lost or the tear is not measured")
 }
